@@ -4,6 +4,7 @@ import (
 	"bufio"
 	"bytes"
 	"fmt"
+	"io"
 	"net/http"
 	"runtime"
 	"strconv"
@@ -57,6 +58,10 @@ func kindOf(s string) faultKind {
 		return faultShort
 	case "eof":
 		return faultEOF
+	case "timeout":
+		return faultTimeout
+	case "reset":
+		return faultReset
 	}
 	return faultErr
 }
@@ -215,6 +220,30 @@ func execFaults(args []string) string {
 			v += ",late-return"
 		}
 		return v
+	case "hs-server-stall": // the peer sends its request and stops reading: the 101 response hits the handshake time-out
+		sc, peer := newPipe()
+		_, _ = peer.Write(rawRequest(""))
+		br := bufio.NewReaderSize(sc, 4096)
+		req, err := http.ReadRequest(br)
+		if err != nil {
+			return "bad-op request"
+		}
+		sc.Stall()
+		up := gws.NewUpgrader(newRecorder(), &gws.ServerOption{Logger: quietLogger{}, HandshakeTimeout: 100 * time.Millisecond})
+		t0 := time.Now()
+		conn, err := up.UpgradeFromConn(sc, br, req)
+		el := time.Since(t0)
+		if err == nil {
+			_ = sc.Close()
+			_ = peer.Close()
+			sc.Unstall()
+			return "stalled-handshake-succeeded"
+		}
+		v := hsVerdict(conn, err, sc, peer)
+		if el > 2*time.Second {
+			v += ",late-return"
+		}
+		return v
 	case "hs-server": // faults hs-server <r|w> <k> <kind>: fault on the server's transport during the upgrade
 		k, _ := strconv.Atoi(args[2])
 		sc, peer := newPipe()
@@ -264,6 +293,92 @@ func execFaults(args []string) string {
 		}
 		return fmt.Sprintf("first=%s later-write=%s later-close=%s frames=%s closed=%s transport-closed=%s", retClass(e1), retClass(e2), retClass(e3),
 			strings.Join(ops, ","), b2s(gws.VerifIsClosed(s)), b2s(sc.IsClosed()))
+	case "file-gap": // faults file-gap <s|c> <compress> <msg|v|async|bc> <readIndex>: a data writer arrives while WriteFile reads its source
+		ext := ""
+		pd := gws.PermessageDeflate{}
+		if args[2] == "1" {
+			ext = "permessage-deflate; server_no_context_takeover; client_no_context_takeover"
+			pd = gws.PermessageDeflate{Enabled: true}
+		}
+		var conn *gws.Conn
+		var local *memConn
+		var err error
+		if args[1] == "s" {
+			conn, local, _, err = serverConnRaw(&gws.ServerOption{PermessageDeflate: pd}, newRecorder(), ext)
+		} else {
+			conn, local, _, err = clientConnRaw(&gws.ClientOption{PermessageDeflate: pd}, newRecorder(), ext, nil)
+		}
+		if err != nil {
+			return "handshake-failed"
+		}
+		at, _ := strconv.Atoi(args[4])
+		intruderDone := make(chan struct{})
+		var bc *gws.Broadcaster
+		intrude := func() {
+			defer close(intruderDone)
+			switch args[3] {
+			case "msg":
+				_ = conn.WriteMessage(gws.OpcodeText, []byte("intruder"))
+			case "v":
+				_ = conn.Writev(gws.OpcodeText, []byte("intr"), []byte("uder"))
+			case "async":
+				d := make(chan struct{})
+				conn.WriteAsync(gws.OpcodeText, []byte("intruder"), func(error) { close(d) })
+				<-d
+			case "bc":
+				bc = gws.NewBroadcaster(gws.OpcodeText, []byte("intruder"))
+				_ = bc.Broadcast(conn)
+				drainAsync(conn)
+			}
+		}
+		rnd := NewRand(uint64(at)*77 + 5)
+		var chunks [][]byte
+		for i := 0; i < 6; i++ {
+			b := make([]byte, 100*1024)
+			for j := range b {
+				b[j] = byte(rnd.Intn(256))
+			}
+			chunks = append(chunks, b)
+		}
+		src := &gapReader{chunks: chunks, at: at, hook: func() {
+			go intrude()
+			select { // with the write lock held for the whole streamed message the intruder cannot finish before we go on
+			case <-intruderDone:
+			case <-time.After(60 * time.Millisecond):
+			}
+		}}
+		if err := conn.WriteFile(gws.OpcodeBinary, src); err != nil {
+			return "writefile-failed:" + retClass(err)
+		}
+		select {
+		case <-intruderDone:
+		case <-time.After(3 * time.Second):
+			return "intruder-did-not-return"
+		}
+		if bc != nil {
+			_ = bc.Close()
+		}
+		fs, derr := decodeFrames(local.Tap())
+		if derr != nil {
+			return "wire-not-whole-frames:" + derr.Error()
+		}
+		open := false
+		for i, f := range fs {
+			switch {
+			case f.opcode == 2 && !f.fin:
+				open = true
+			case f.opcode == 0 && f.fin:
+				open = false
+			case f.opcode == 1 || f.opcode == 2:
+				if open {
+					return fmt.Sprintf("data-frame-inside-streamed-message:frame-%d-of-%d", i, len(fs))
+				}
+			}
+		}
+		if open {
+			return "streamed-message-not-finished"
+		}
+		return "contiguous"
 	case "stall-close": // a local close while another writer is stalled on a peer that stopped reading
 		sh := newRecorder()
 		s, sc, _, err := serverConnRaw(&gws.ServerOption{}, sh, "")
@@ -293,12 +408,37 @@ func execFaults(args []string) string {
 	return "bad-op"
 }
 
+// gapReader: a WriteFile source that calls hook at the start of its at-th Read (0-based)
+type gapReader struct {
+	chunks [][]byte
+	i, at  int
+	hook   func()
+}
+
+func (r *gapReader) Read(p []byte) (int, error) {
+	if r.i == r.at && r.hook != nil {
+		r.hook()
+	}
+	if r.i >= len(r.chunks) {
+		return 0, io.EOF
+	}
+	n := copy(p, r.chunks[r.i])
+	r.i++
+	return n, nil
+}
+
 func hsVerdict(conn *gws.Conn, err error, local, peer *memConn) string {
 	var problems []string
 	if err == nil {
 		// the fault did not hit the handshake (k beyond its operations): fine, clean up
 		if conn == nil {
 			return "nil-conn-nil-error"
+		}
+		if local.PlanFired() {
+			// a transport operation of the handshake failed and the handshake function reported success
+			_ = local.Close()
+			_ = peer.Close()
+			return "fault-swallowed"
 		}
 		_ = local.Close()
 		_ = peer.Close()
@@ -333,12 +473,12 @@ func genFaults(g *Gen) {
 				stepR = 1 + ops[0]/12
 			}
 			for k := 0; k < ops[0]; k += stepR {
-				for _, kind := range []string{"err", "eof"} {
+				for _, kind := range []string{"err", "eof", []string{"timeout", "reset"}[k%2]} {
 					g.Emit("faults session %s r %d %s %s", ep, k, kind, comp)
 				}
 			}
 			for k := 0; k < ops[1]; k += stepW {
-				for _, kind := range kinds {
+				for _, kind := range append(kinds, []string{"timeout", "reset"}[k%2]) {
 					if kind == "eof" {
 						continue
 					}
@@ -348,16 +488,29 @@ func genFaults(g *Gen) {
 		}
 	}
 	for k := 0; k < 6; k++ {
-		for _, kind := range []string{"err", "short"} {
+		for _, kind := range []string{"err", "short", "timeout", "reset"} {
 			g.Emit("faults hs-client w %d %s", k, kind)
 			g.Emit("faults hs-server w %d %s", k, kind)
 		}
-		for _, kind := range []string{"err", "eof"} {
+		for _, kind := range []string{"err", "eof", "timeout", "reset"} {
 			g.Emit("faults hs-client r %d %s", k, kind)
 		}
 	}
+	g.Emit("faults hs-server-stall")
 	for _, api := range []string{"msg", "v", "async", "vasync", "bc"} {
 		g.Emit("faults close-via-write %s", api)
+	}
+	for _, role := range []string{"s", "c"} {
+		for _, comp := range []string{"0", "1"} {
+			for i, api := range []string{"msg", "v", "async", "bc"} {
+				g.Emit("faults file-gap %s %s %s %d", role, comp, api, 1+(i+len(role+comp))%4)
+				if g.Thorough() {
+					for at := 1; at <= 6; at++ {
+						g.Emit("faults file-gap %s %s %s %d", role, comp, api, at)
+					}
+				}
+			}
+		}
 	}
 	g.Emit("faults hs-client-stall")
 	g.Emit("faults stall-close")
